@@ -13,7 +13,7 @@ def build_obs(tier, tables=None):
         Ob("c16-dupopt-nofault", "alloc_step.c", ["-DMODE=%d" % MODES["DUPOPT"], "-DFAIL_AT=-1"], unwind=8, checks="std", must_reach=("end of harness", "success path")),
         Ob("c16-dupopt-anyfault", "alloc_step.c", ["-DMODE=%d" % MODES["DUPOPT"]], unwind=8, checks="none", flags=["--pointer-check", "--bounds-check"], must_reach=("end of harness", "failure path")),
     ]
-    obs += [o for o in parse_step_obs(["CHK_C01", "CHK_C16"], "c16", states=[5], tier=tier) if "secm" in o.key or "sect-" in o.key]
+    obs += [o for o in parse_step_obs(["CHK_C01", "CHK_C16"], "c16", states=[5], tier=tier) if "secm" in o.key or "sect-" in o.key or "-sec-nv0" in o.key]
     # the one object instances do share with their context - the borrowed search path - is never released
     # through an instance (replacing an instance must not free what its siblings and the root still use)
     extra = [o for o in parse_step_obs(["CHK_C07", "CHK_C16"], "c16path", states=[5], tier=tier, extra_all=("WITH_PATH=2",)) if "sect-" in o.key]
